@@ -749,3 +749,41 @@ func errNilOnPath(pa *Path) bool {
 	}
 	return seen
 }
+
+// checkCloneFresh: every successful Clone/CloneWithFilter/CloneForFilter call builds a new
+// controller over a subscription obtained by that very call; nothing is cached in, or handed out
+// from, the publisher (two holders of "their" clone must not end up closing each other's).
+func checkCloneFresh(c *Ctx) {
+	rule := "T-FLOW(clone-fresh)"
+	for _, k := range [][3]string{{"publisher.Clone", "newPublisher", "Subscribe"}, {"publisher.CloneWithFilter", "newFilterPublisher", "SubscribeWithFilter"}, {"publisher.CloneForFilter", "newFilterPublisher", "SubscribeForFilter"}} {
+		fn := c.mustFunc("", k[0])
+		if fn == nil {
+			continue
+		}
+		ok, detail, good := true, "", 0
+		for _, pa := range pathsOf(c, fn) {
+			for _, e := range pa.Effects {
+				if e.Kind == "store" && e.Addr != nil && e.Addr.K == "faddr" && len(e.Addr.A) == 1 && e.Addr.A[0].K == "param" {
+					ok, detail = false, "stores into the publisher (."+e.Addr.S+"): a clone must not be remembered"
+				}
+			}
+			if pa.End.Kind != "return" || len(pa.End.Results) != 2 {
+				continue
+			}
+			if !pa.End.Results[1].IsNil() {
+				continue // error path
+			}
+			r := pa.End.Results[0]
+			for r.K == "makeiface" || r.K == "changeiface" || r.K == "convert" {
+				r = r.A[0]
+			}
+			a, isCtor := isCall(r, k[1])
+			if !isCtor || len(a) != 2 || !(a[1].K == "extract" && a[1].S == "0" && a[1].A[0].K == "call" && a[1].A[0].S == "publisher."+k[2] && isParamT(a[1].A[0].A[0], fn.Params[0].Name())) {
+				ok, detail = false, "a successful path returns "+r.Key()+", not "+k[1]+"(log, the subscription this call obtained from "+k[2]+")"
+				continue
+			}
+			good++
+		}
+		c.check(ok && good > 0, rule, k[0]+"/new-controller-per-call", c.P.fnPos(fn), "", k[0]+": "+detail+" — every caller must get its own controller, or closing one clone closes its siblings")
+	}
+}
